@@ -55,6 +55,18 @@ PROPS["C05"] = {
     "assumptions": INST_ASSUME + ["Spec/StateDecision.lean is our transcription of Figure 33 (trusted)"],
 }
 
+PROPS["C06"] = {
+    "streams": [{"name": "fml"}, {"name": "inst"}],
+    "rule": "fml: one to three masters announcing over sixteen announce intervals (steady / sparse / falling silent / bursty), "
+            "network duplicates, stale and re-ordered sequence ids, sequence numbers straddling 65535->0 and the half range, "
+            "stepsRemoved 254/255/300, a master bearing the own clock identity, BMCA runs at every phase (1, 2 or 4 runs per "
+            "interval); inst: the mixed stream. Compared after every BMCA op (port states, parent/current data sets). "
+            "distinct = distinct op lines with a non-empty observation",
+    "explanation": "Lean theorems over all histories of the foreign master list (threshold, single Announce never qualifies, never "
+                   "stepsRemoved>=255 / own identity, records younger than the window, silence expires); constants tied by the translator",
+    "assumptions": INST_ASSUME,
+}
+
 
 def split_obs(obs):
     """(items, status, state) of an instance-stream observation line"""
@@ -68,7 +80,7 @@ def projection(pid, stream, profile):
     """returns f(op_line, observation_line) -> comparable value or None (= not compared for this property)"""
     def ident(op, obs):
         return obs
-    if stream in ("inst", "bmca") and pid == "C05":
+    if stream in ("inst", "bmca", "fml") and pid in ("C05", "C06"):
         def f(op, obs):
             if not op.startswith("BMCA"):
                 return None
@@ -104,4 +116,4 @@ def replay_body(pid, stream, ops, idx):
     return ops[idx] + "\n"
 
 
-STATEFUL = {"inst", "bmca"}
+STATEFUL = {"inst", "bmca", "fml"}
